@@ -79,3 +79,60 @@ V('ls1m-join-one-side', ['C12', 'C01'], U,
   "                sections[0].pos += sections[1].pos\n", "", 'LS1m')
 V('ls1s-delim-pad', ['C14', 'C01'], PR,
   "charmap_tot += [charmap_tot[-1]] * len(delim)", "charmap_tot += [charmap_tot[-1]]", 'LS1s')
+
+# ---------------------------------------------------------------- AB
+V('ab1-mark-off-by-one', ['C01', 'C08'], U,
+  "out.append(defs.TextToken(pos + mx -1, mark[mx:], pos_fix=True))",
+  "out.append(defs.TextToken(pos + mx, mark[mx:], pos_fix=True))", 'AB1')
+V('ab1-no-min', ['C01', 'C08'], U,
+  "mx = min(len(mark), len(latex) - pos)", "mx = len(latex) - pos", 'AB1')
+V('ab1-neutral-reorder', ['C01', 'C08'], U,
+  "mx = min(len(mark), len(latex) - pos)", "mx = min(len(latex) - pos, len(mark))", [])
+V('ab1-wrong-text', ['C08'], 'yalafi/mathparser.py',
+  "self.parser.latex, self.parser.parms) + out)", "buf, self.parser.parms) + out)", 'AB1')
+V('ab2-no-clamp', ['C15', 'C14'], 'yalafi/shell/utils.py',
+  "end = min(max(0, beg + m['length'] - 1), len(charmap) - 1)",
+  "end = max(0, beg + m['length'] - 1)", 'AB2')
+V('ab2-clamp-len', ['C15', 'C14'], 'yalafi/shell/utils.py',
+  "beg = min(max(0, m['offset']), len(charmap) - 1)",
+  "beg = min(max(0, m['offset']), len(charmap))", 'AB2')
+V('ab2-range-check-weak', ['C15'], PR,
+  "if beg < 0 or beg >= len(charmap_tot):", "if beg < 0 or beg > len(charmap_tot):", 'AB2')
+V('ab3-pad-index', ['C13'], U,
+  "+ [i_pos[cur+m_len-1]] * (r_len - m_len))", "+ [i_pos[cur+m_len]] * (r_len - m_len))", 'AB3')
+V('ab3-cursor', ['C13'], U,
+  "        last = m.end(0)\n", "        last = cur + r_len\n", 'AB3')
+V('ab3-slice-mismatch', ['C13'], U,
+  "o_pos += i_pos[last:cur]", "o_pos += i_pos[last:cur+1]", ['AB3'])
+# ---------------------------------------------------------------- TJ
+V('tj1-raw-offset', ['C15'], 'yalafi/shell/gentext.py',
+  "offset = json_get(m, 'offset', int)", "offset = m['offset']", [])
+V('tj1-raw-message', ['C15'], 'yalafi/shell/gentext.py',
+  "out.write('Message: ' + json_get(m, 'message', str) + '\\n')",
+  "out.write('Message: ' + m['message'] + '\\n')", 'TJ1')
+V('tj1-raw-rule', ['C15'], 'yalafi/shell/genxml.py',
+  "category = json_get(rule, 'category', dict)", "category = rule['category']", 'TJ1')
+V('tj1-unvalidated-length', ['C15'], PR,
+  "                m['length'] = json_get(m, 'length', int)\n", "", 'TJ1')
+V('tj1-urls-unguarded', ['C15'], 'yalafi/shell/gentext.py',
+  "            if urls:\n                out.write('More info: ' + json_get(urls[0], 'value', str)\n                                + '\\n')",
+  "            out.write('More info: ' + json_get(urls[0], 'value', str)\n                                + '\\n')", 'TJ1')
+V('tj2-decode-outside', ['C15'], PR,
+  "    try:\n        out = out.decode(encoding='utf-8')\n        dic = json_decoder.decode(out)\n    except:\n        json_fatal('JSON root element')\n    matches = json_get(dic, 'matches', list)",
+  "    out = out.decode(encoding='utf-8')\n    try:\n        dic = json_decoder.decode(out)\n    except:\n        json_fatal('JSON root element')\n    matches = json_get(dic, 'matches', list)", 'TJ2')
+V('tj3-no-dict-check', ['C15'], 'yalafi/shell/shell.py',
+  "    if not isinstance(dic, dict):\n        json_fatal(item)\n    ret = dic.get(item)",
+  "    try:\n        ret = dic[item]\n    except KeyError:\n        json_fatal(item)", 'TJ3')
+# ---------------------------------------------------------------- PS
+V('ps1-module-cache', ['C17'], 'yalafi/packages/glossaries.py',
+  "def get_glossary(parser):\n    if not hasattr(parser, 'the_glossary'):\n        parser.the_glossary = {}\n    return parser.the_glossary",
+  "the_glossary = {}\ndef get_glossary(parser):\n    return the_glossary", 'PS1')
+V('ps1-server-no-copy', ['C17'], 'yalafi/shell/server.py',
+  "old_opts = self.server.my_lt_options.copy()", "old_opts = self.server.my_lt_options", 'PS1')
+V('ps1-default-arg', ['C17'], P,
+  "        self.packages = {}\n", "        self.packages = {}\n        packages.append(('', ([], None)))\n", 'PS1')
+V('ps1-shared-table', ['C17'], 'yalafi/parameters.py',
+  "            lang_change_repl = ['K-K-K', 'L-L-L', 'M-M-M', 'N-N-N'],\n            lang_change_repl_vowel = None,\n            short_macros = {}\n        )\n        settings['de']",
+  "            lang_change_repl = LANG_CHANGE,\n            lang_change_repl_vowel = None,\n            short_macros = {}\n        )\n        settings['de']", [])
+V('ps2-global-counter', ['C17'], 'yalafi/utils.py',
+  "def latex_error(err, pos, latex, parms):\n", "error_count = 0\ndef latex_error(err, pos, latex, parms):\n    global error_count\n    error_count += 1\n", 'PS2')
